@@ -54,6 +54,11 @@ def _outer(kind, params, i, frac, x, x0, y0, x1, y1, dx, dy, subpixels):
     return x == x0 - 0.5 * dx + i * dx and frac == tot_count(kind, params, x0, y0, x1 - x0, y1 - y0, subpixels, i)
 
 
+def _running(lo, hi, step, v, k, n):
+    """after k + 1 increments from lo - step/2 the running coordinate is the centre of sub-cell k"""
+    return (not (n >= 1 and step == (hi - lo) / n and v == lo - 0.5 * step + (k + 1) * step)) or v == lo + (k + 0.5) * (hi - lo) / n
+
+
 def _sq_quot(u, r):
     return r == 0 or (u / r) * (u / r) == u * u * (1 / (r * r))
 
@@ -64,8 +69,9 @@ def _inner(kind, params, i, j, frac, x, y, x0, y0, x1, y1, dx, dy, subpixels):
     # proof steps: the running coordinates are the sample centres of the definition (products of the counters with the step)
     if not (isinstance(j, int) and j == 0):
         p = sample_point(x0, y0, x1 - x0, y1 - y0, subpixels, i, j - 1)
-        lemma('x_is_the_sample_abscissa', (not (j >= 1)) or (not (x == x0 - 0.5 * dx + (i + 1) * dx)) or x == p[0])
-        lemma('y_is_the_sample_ordinate', (not (j >= 1)) or (not (y == y0 - 0.5 * dy + j * dy)) or y == p[1])
+        from vprim import general
+        general('running_coordinate_is_the_sample_centre', _running, x0, x1, dx, x, i, subpixels)
+        general('running_coordinate_is_the_sample_centre', _running, y0, y1, dy, y, j - 1, subpixels)
         if kind == 'ellipse':
             # the kernel multiplies by precomputed 1/r^2, the definition divides by r: equal for every real (general lemma),
             # then the two membership tests are the same test, step by step
@@ -234,13 +240,14 @@ def _ellipse_value(xmin, xmax, ymin, ymax, nx, ny, rx, ry, theta, use_exact, n, 
     px = _pixel(xmin, xmax, ymin, ymax, nx, ny, I, J)
     dx = (xmax - xmin) / nx
     dy = (ymax - ymin) / ny
-    r = max(rx, ry)
+    from vprim import ite
+    r = ite(rx >= ry, rx, ry)
     inw = _window(px, dx, dy, (-r - 0.5 * dx, r + 0.5 * dx), (-r - 0.5 * dy, r + 0.5 * dy))
     if use_exact:
         v = uf('exact_area_ellipse', 'real', px[0], px[1], px[2], px[3], rx, ry, theta) * (1. / (dx * dy))
     else:
         v = _frac_of('ellipse', (rx, ry, cos(theta), sin(theta)), px, n)
-    return v if inw else 0.0
+    return ite(inw, v, 0.0)        # a value, not a branch: the specification does not fork the proof
 
 
 @contract(ELL + 'elliptical_overlap_grid', props=['C02'])
@@ -271,3 +278,245 @@ class kernel_ellipse_grid:
             (not (0 <= I and I < nx and 0 <= J and J < ny)) or
             result[J, I] == _ellipse_value(xmin, xmax, ymin, ymax, nx, ny, rx, ry, theta, use_exact, subpixels, I, J),
     }
+
+
+def _polygon_value(xmin, xmax, ymin, ymax, nx, ny, vx, vy, n, I, J):
+    px = _pixel(xmin, xmax, ymin, ymax, nx, ny, I, J)
+    inw = _window(px, None, None, (vx.min(), vx.max()), (vy.min(), vy.max()))
+    from vprim import ite
+    return ite(inw, _frac_of('polygon', (vx, vy), px, n), 0.0)
+
+
+@contract(POLY + 'polygonal_overlap_grid', props=['C02'])
+class kernel_polygon_grid:
+    def setup(B):
+        stub(POLY + 'polygonal_overlap_single_subpixel',
+             lambda x0, y0, x1, y1, vx, vy, subpixels: sampled_fraction('polygon', (vx, vy), x0, y0, x1 - x0, y1 - y0, subpixels))
+        m = B.int('m')
+        B.assume(m >= 1)
+        return dict(xmin=B.real('xmin'), xmax=B.real('xmax'), ymin=B.real('ymin'), ymax=B.real('ymax'), nx=B.int('nx'), ny=B.int('ny'),
+                    vx=B.array('vx', (m,)), vy=B.array('vy', (m,)), use_exact=0, subpixels=B.int('n'))
+    pre = lambda nx, ny, subpixels, xmin, xmax, ymin, ymax: nx >= 1 and ny >= 1 and subpixels >= 1 and xmax > xmin and ymax > ymin
+    forall = {'I': 'int', 'J': 'int'}
+    loops = {
+        'polygonal_overlap_grid#0': lambda i, frac, xmin, xmax, ymin, ymax, nx, ny, vx, vy, subpixels, I, J:
+            _state(I, J, i, 0, nx, ny, frac, _polygon_value(xmin, xmax, ymin, ymax, nx, ny, vx, vy, subpixels, I, J)),
+        'polygonal_overlap_grid#1': lambda j, i, frac, xmin, xmax, ymin, ymax, nx, ny, vx, vy, subpixels, I, J:
+            0 <= i and i < nx and
+            _state(I, J, i, j, nx, ny, frac, _polygon_value(xmin, xmax, ymin, ymax, nx, ny, vx, vy, subpixels, I, J)),
+    }
+    post = {
+        'shape': lambda nx, ny, result: result.shape == (ny, nx),
+        'every_pixel': lambda xmin, xmax, ymin, ymax, nx, ny, vx, vy, subpixels, result, I, J:
+            (not (0 <= I and I < nx and 0 <= J and J < ny)) or
+            result[J, I] == _polygon_value(xmin, xmax, ymin, ymax, nx, ny, vx, vy, subpixels, I, J),
+    }
+
+
+def _circle_value(xmin, xmax, ymin, ymax, nx, ny, r, use_exact, n, I, J):
+    from vprim import uf, sqrt
+    px = _pixel(xmin, xmax, ymin, ymax, nx, ny, I, J)
+    dx = (xmax - xmin) / nx
+    dy = (ymax - ymin) / ny
+    inw = _window(px, dx, dy, (-r - 0.5 * dx, r + 0.5 * dx), (-r - 0.5 * dy, r + 0.5 * dy))
+    pixel_radius = 0.5 * sqrt(dx * dx + dy * dy)
+    cx, cy = px[0] + dx * 0.5, px[1] + dy * 0.5
+    d = sqrt(cx * cx + cy * cy)
+    from vprim import ite
+    if use_exact:
+        v = uf('exact_area_circle', 'real', px[0], px[1], px[2], px[3], r) / (dx * dy)
+    else:
+        v = _frac_of('circle', (r,), px, n)
+    return ite(inw, ite(d < r - pixel_radius, 1.0, ite(d < r + pixel_radius, v, 0.0)), 0.0)
+
+
+@contract(CIRC + 'circular_overlap_grid', props=['C02'])
+class kernel_circle_grid:
+    cases = {'subpixels': {'use_exact': 0}, 'exact': {'use_exact': 1}}
+
+    def setup(B, use_exact=0):
+        from vprim import uf
+        stub(CIRC + 'circular_overlap_single_subpixel',
+             lambda x0, y0, x1, y1, r, subpixels: sampled_fraction('circle', (r,), x0, y0, x1 - x0, y1 - y0, subpixels))
+        stub(CIRC + 'circular_overlap_single_exact', lambda xmin, ymin, xmax, ymax, r: uf('exact_area_circle', 'real', xmin, ymin, xmax, ymax, r))
+        return dict(xmin=B.real('xmin'), xmax=B.real('xmax'), ymin=B.real('ymin'), ymax=B.real('ymax'), nx=B.int('nx'), ny=B.int('ny'),
+                    r=B.real('r'), use_exact=use_exact, subpixels=B.int('n'))
+    pre = lambda nx, ny, subpixels, r, xmin, xmax, ymin, ymax: nx >= 1 and ny >= 1 and subpixels >= 1 and r > 0 and xmax > xmin and ymax > ymin
+    forall = {'I': 'int', 'J': 'int'}
+    loops = {
+        'circular_overlap_grid#0': lambda i, frac, xmin, xmax, ymin, ymax, nx, ny, r, use_exact, subpixels, I, J:
+            _state(I, J, i, 0, nx, ny, frac, _circle_value(xmin, xmax, ymin, ymax, nx, ny, r, use_exact, subpixels, I, J)),
+        'circular_overlap_grid#1': lambda j, i, frac, xmin, xmax, ymin, ymax, nx, ny, r, use_exact, subpixels, I, J:
+            0 <= i and i < nx and
+            _state(I, J, i, j, nx, ny, frac, _circle_value(xmin, xmax, ymin, ymax, nx, ny, r, use_exact, subpixels, I, J)),
+    }
+    post = {
+        'shape': lambda nx, ny, result: result.shape == (ny, nx),
+        'every_pixel': lambda xmin, xmax, ymin, ymax, nx, ny, r, use_exact, subpixels, result, I, J:
+            (not (0 <= I and I < nx and 0 <= J and J < ny)) or
+            result[J, I] == _circle_value(xmin, xmax, ymin, ymax, nx, ny, r, use_exact, subpixels, I, J),
+    }
+
+
+# ---------------------------------------------------------------------------------------------------------------------------
+# A-KERNEL-WINDOW, part 1 (proved): a pixel lying outside the square [-R, R]^2 around a shape contained in the disk of radius R has
+# no member sample.  Proved by induction over the samples: the induction is a ghost function whose two loops carry the invariants.
+def outside_square(px, R):
+    return px[2] <= -R or px[0] >= R or px[3] <= -R or px[1] >= R
+
+
+def ghost_far_pixel(kind, params, x0, y0, x1, y1, n):
+    """ghost code: walks over the n x n samples of the pixel; its loop invariants say that no sample met so far is a member"""
+    for a in range(n):
+        for b in range(n):
+            pass
+    return tot_count(kind, params, x0, y0, x1 - x0, y1 - y0, n, n)
+
+
+def _far_outer(kind, params, a, x0, y0, x1, y1, n):
+    return tot_count(kind, params, x0, y0, x1 - x0, y1 - y0, n, a) == 0
+
+
+def _centre_inside(lo, hi, k, n):
+    return (not (n >= 1 and 0 <= k and k <= n - 1 and hi > lo)) or (lo < lo + (k + 0.5) * (hi - lo) / n and lo + (k + 0.5) * (hi - lo) / n < hi)
+
+
+def _far_inner(kind, params, a, b, x0, y0, x1, y1, n):
+    from vprim import lemma
+    from spec.masks import sample_point
+    if not (isinstance(b, int) and b == 0):
+        p = sample_point(x0, y0, x1 - x0, y1 - y0, n, a, b - 1)
+        # a sample centre lies strictly inside its pixel (for all reals, proved on its own)
+        from vprim import general
+        general('sample_centre_inside_cell', _centre_inside, x0, x1, a, n)
+        general('sample_centre_inside_cell', _centre_inside, y0, y1, b - 1, n)
+    return (0 <= a and a < n and tot_count(kind, params, x0, y0, x1 - x0, y1 - y0, n, a) == 0
+            and col_count(kind, params, x0, y0, x1 - x0, y1 - y0, n, a, b) == 0)
+
+
+@contract('contracts/k_kernels.py::ghost_far_pixel', props=['C02'])
+class lemma_far_pixel_of_a_disk_has_no_member_sample:
+    def setup(B):
+        r = B.real('r')
+        return dict(kind='circle', params=(r,), x0=B.real('x0'), y0=B.real('y0'), x1=B.real('x1'), y1=B.real('y1'), n=B.int('n'), r=r)
+    pre = lambda x0, y0, x1, y1, n, r: n >= 1 and x1 > x0 and y1 > y0 and r > 0 and outside_square((x0, y0, x1, y1), r)
+    loops = {
+        'ghost_far_pixel#0': lambda a, kind, params, x0, y0, x1, y1, n: _far_outer(kind, params, a, x0, y0, x1, y1, n),
+        'ghost_far_pixel#1': lambda b, a, kind, params, x0, y0, x1, y1, n: _far_inner(kind, params, a, b, x0, y0, x1, y1, n),
+    }
+    post = {'no_member_sample': lambda result: result == 0}
+
+
+def _far_point(x0, y0, x1, y1, px, py, R):
+    return (not (R > 0 and x0 < px and px < x1 and y0 < py and py < y1 and (x1 <= -R or x0 >= R or y1 <= -R or y0 >= R))) or px * px + py * py > R * R
+
+
+def _sq_beyond(x, R):
+    return (not (R > 0 and (x > R or x < -R))) or x * x > R * R
+
+
+def _rot_norm(x, y, c, s):
+    return (not (c * c + s * s == 1)) or (c * x + s * y) * (c * x + s * y) + (-s * x + c * y) * (-s * x + c * y) == x * x + y * y
+
+
+def _quot_mono(u, r, R):
+    return (not (0 < r and r <= R)) or (u / r) * (u / r) >= (u / R) * (u / R)
+
+
+def _div_gt(A, R):
+    return (not (R > 0 and A > R * R)) or A / (R * R) > 1
+
+
+def _quot_sum(u, v, R):
+    return (not (R > 0)) or (u / R) * (u / R) + (v / R) * (v / R) == (u * u + v * v) / (R * R)
+
+
+def _far_inner_ellipse(params, R, a, b, x0, y0, x1, y1, n):
+    from vprim import general, lemma
+    from spec.masks import sample_point
+    from spec.geometry import to_shape_frame
+    rx, ry, c, s = params
+    if not (isinstance(b, int) and b == 0):
+        p = sample_point(x0, y0, x1 - x0, y1 - y0, n, a, b - 1)
+        us, vs = to_shape_frame(0.0, 0.0, c, s, p[0], p[1])
+        general('sample_centre_inside_cell', _centre_inside, x0, x1, a, n)
+        general('sample_centre_inside_cell', _centre_inside, y0, y1, b - 1, n)
+        general('point_of_a_far_cell_is_beyond_R', _far_point, x0, y0, x1, y1, p[0], p[1], R)
+        general('rotation_keeps_the_norm', _rot_norm, p[0], p[1], c, s)
+        general('smaller_axis_larger_quotient', _quot_mono, us, rx, R)
+        general('smaller_axis_larger_quotient', _quot_mono, vs, ry, R)
+        general('sum_of_quotient_squares', _quot_sum, us, vs, R)
+        general('quotient_exceeds_one', _div_gt, us * us + vs * vs, R)
+    return _far_inner('ellipse', params, a, b, x0, y0, x1, y1, n)
+
+
+@contract('contracts/k_kernels.py::ghost_far_pixel', props=['C02'])
+class lemma_far_pixel_of_an_ellipse_has_no_member_sample:
+    def setup(B):
+        rx, ry, c, s, R = B.real('rx'), B.real('ry'), B.real('c'), B.real('s'), B.real('R')
+        return dict(kind='ellipse', params=(rx, ry, c, s), x0=B.real('x0'), y0=B.real('y0'), x1=B.real('x1'), y1=B.real('y1'), n=B.int('n'),
+                    rx=rx, ry=ry, c=c, s=s, R=R)
+    pre = lambda x0, y0, x1, y1, n, rx, ry, c, s, R: (n >= 1 and x1 > x0 and y1 > y0 and 0 < rx and rx <= R and 0 < ry and ry <= R
+                                                      and c * c + s * s == 1 and outside_square((x0, y0, x1, y1), R))
+    loops = {
+        'ghost_far_pixel#0': lambda a, kind, params, x0, y0, x1, y1, n: _far_outer(kind, params, a, x0, y0, x1, y1, n),
+        'ghost_far_pixel#1': lambda b, a, kind, params, x0, y0, x1, y1, n, R: _far_inner_ellipse(params, R, a, b, x0, y0, x1, y1, n),
+    }
+    post = {'no_member_sample': lambda result: result == 0}
+
+
+def apply_far_pixel_lemma(lemma_cls, kind, params, px, n, **ghost):
+    """use of a proved lemma (modular): where its precondition holds, its conclusion may be used.  Both are taken from the lemma's own
+    contract, so what is used is exactly what was proved"""
+    from vprim import fact, implies, event
+    pre = lemma_cls.pre(x0=px[0], y0=px[1], x1=px[2], y1=px[3], n=n, **ghost)
+    event('lemma', name=lemma_cls.__name__)
+    fact(implies(pre, tot_count(kind, params, px[0], px[1], px[2] - px[0], px[3] - px[1], n, n) == 0))
+    return pre
+
+
+@contract(ELL + 'elliptical_overlap_grid', props=['C02'])
+class kernel_ellipse_grid_is_the_sampled_fraction_everywhere:
+    """with the far-pixel lemma: also the pixels the bounding-window short-cut leaves at 0 hold their sampled fraction"""
+    def setup(B):
+        stub(ELL + 'elliptical_overlap_single_subpixel',
+             lambda x0, y0, x1, y1, rx, ry, theta, subpixels:
+             sampled_fraction('ellipse', (rx, ry, cos(theta), sin(theta)), x0, y0, x1 - x0, y1 - y0, subpixels))
+        return dict(xmin=B.real('xmin'), xmax=B.real('xmax'), ymin=B.real('ymin'), ymax=B.real('ymax'), nx=B.int('nx'), ny=B.int('ny'),
+                    rx=B.real('rx'), ry=B.real('ry'), theta=B.real('theta'), use_exact=0, subpixels=B.int('n'))
+    pre = kernel_ellipse_grid.pre
+    forall = {'I': 'int', 'J': 'int'}
+    loops = kernel_ellipse_grid.loops
+
+    def _post(xmin, xmax, ymin, ymax, nx, ny, rx, ry, theta, subpixels, result, I, J):
+        from vprim import ite
+        px = _pixel(xmin, xmax, ymin, ymax, nx, ny, I, J)
+        R = ite(rx >= ry, rx, ry)
+        params = (rx, ry, cos(theta), sin(theta))
+        apply_far_pixel_lemma(lemma_far_pixel_of_an_ellipse_has_no_member_sample, 'ellipse', params, px, subpixels,
+                              rx=rx, ry=ry, c=params[2], s=params[3], R=R)
+        return (not (0 <= I and I < nx and 0 <= J and J < ny)) or result[J, I] == _frac_of('ellipse', params, px, subpixels)
+    post = {'every_pixel': _post}
+
+
+@contract(CIRC + 'circular_overlap_grid', props=['C02'])
+class kernel_circle_grid_window_pixels_hold_their_sampled_fraction:
+    """with the far-pixel lemma: pixels the bounding-window short-cut leaves at 0 hold their sampled fraction (the two distance
+    short-cuts inside the window remain under A-KERNEL-WINDOW)"""
+    def setup(B):
+        stub(CIRC + 'circular_overlap_single_subpixel',
+             lambda x0, y0, x1, y1, r, subpixels: sampled_fraction('circle', (r,), x0, y0, x1 - x0, y1 - y0, subpixels))
+        return dict(xmin=B.real('xmin'), xmax=B.real('xmax'), ymin=B.real('ymin'), ymax=B.real('ymax'), nx=B.int('nx'), ny=B.int('ny'),
+                    r=B.real('r'), use_exact=0, subpixels=B.int('n'))
+    pre = kernel_circle_grid.pre
+    forall = {'I': 'int', 'J': 'int'}
+    loops = kernel_circle_grid.loops
+
+    def _post(xmin, xmax, ymin, ymax, nx, ny, r, subpixels, result, I, J):
+        px = _pixel(xmin, xmax, ymin, ymax, nx, ny, I, J)
+        dx = (xmax - xmin) / nx
+        dy = (ymax - ymin) / ny
+        inw = _window(px, dx, dy, (-r - 0.5 * dx, r + 0.5 * dx), (-r - 0.5 * dy, r + 0.5 * dy))
+        apply_far_pixel_lemma(lemma_far_pixel_of_a_disk_has_no_member_sample, 'circle', (r,), px, subpixels, r=r)
+        return (not (0 <= I and I < nx and 0 <= J and J < ny)) or inw or result[J, I] == _frac_of('circle', (r,), px, subpixels)
+    post = {'pixels_outside_the_window': _post}
